@@ -316,8 +316,12 @@ func dryRunVerdictRule(c *Ctx) {
 		if fn.Parent() != nil {
 			continue
 		}
+		// inlined view: the dry-run writes may sit in an extracted helper (`err = p.dryRunApply(...)`);
+		// the helper call then stands for them and its result is looked through (possibleValuesX)
 		var dry []*ssa.Call
-		for _, ws := range allWriterSites([]*ssa.Function{fn}) {
+		drySite := map[*ssa.Call]ssa.Instruction{}
+		for _, xw := range p.writerSitesX(fn) {
+			ws := xw.WriterSite
 			isDry := false
 			for _, o := range ws.Opts {
 				if g, ok := stripConv(o).(*ssa.UnOp); ok {
@@ -331,6 +335,7 @@ func dryRunVerdictRule(c *Ctx) {
 			}
 			if call, ok := ws.Call.Instr.(*ssa.Call); ok && isDry {
 				dry = append(dry, call)
+				drySite[call] = rootSite(call, xw.Chain)
 			}
 		}
 		if len(dry) == 0 {
@@ -355,7 +360,7 @@ func dryRunVerdictRule(c *Ctx) {
 			// only returns after a dry-run call
 			after := false
 			for _, d := range dry {
-				if canPrecede(d, rc.Ret) {
+				if canPrecede(drySite[d], rc.Ret) {
 					after = true
 				}
 			}
@@ -364,7 +369,7 @@ func dryRunVerdictRule(c *Ctx) {
 			}
 			o := c.Ob(fn, "dry-run-verdict-return", rc.Ret, c.rule.Statement)
 			// (a) returns the dry-run error
-			retErrVals := p.possibleValues(rc.Results[1])
+			retErrVals := p.possibleValuesX(rc.Results[1])
 			returnsErr := len(retErrVals) > 0
 			for _, pv := range retErrVals {
 				if !isDryErr(pv) {
@@ -384,7 +389,7 @@ func dryRunVerdictRule(c *Ctx) {
 					continue
 				}
 				all := true
-				vals := p.possibleValues(x)
+				vals := p.possibleValuesX(x)
 				for _, pv := range vals {
 					if !isDryErr(pv) && !isNilConst(pv) {
 						all = false
